@@ -456,71 +456,147 @@ def check_heap(ctx, db):
     from ..flow import _strip_casts
     norm = lambda t: re.sub(r'<[A-Za-z]+:(?!:)[^>]*>', '', t).replace('gdstk::', '')
     n = 0
+    def defs_of(f, e):
+        """expressions that can define the value of e: e itself, or (for a local) every initialiser / assigned value"""
+        e = _strip_casts(e)
+        if e.k == 'DeclRefExpr' and e.dk == 'local':
+            key = lvalue_key(e)
+            out = [v.child('init') for v in f.walk() if v.k == 'VarDecl' and 'v%d:%s' % (v.d, v.n) == key and v.child('init') is not None]
+            out += [x.child('rhs') for x in f.walk() if is_assign(x) and x.op == '=' and lvalue_key(_strip_casts(x.child('lhs'))) == key]
+            return out or [e]
+        return [e]
+
+    def table(f, e, ks=range(0, 12)):
+        """{free variable: tuple of values for that variable = 0..11} over every definition of e; None if not evaluable"""
+        out = set()
+        for d in defs_of(f, e):
+            names = sorted({x.n for x in d.walk() if x.k == 'DeclRefExpr' and x.dk in ('local', 'param')})
+            if len(names) != 1:
+                return None
+            try:
+                out.add((names[0], tuple(ieval(d, {names[0]: k}) for k in ks)))
+            except (AnalysisBroken, KeyError, OverflowError):
+                return None
+        return out
+
+    LEFT = tuple(2 * k + 1 for k in range(12))
+    RIGHT = tuple(2 * k + 2 for k in range(12))
+
+    def bound_tests(f, endkey):
+        """every relational test against the inclusive bound `end`: (node, other operand, inclusive?, governs a loop?)"""
+        out = []
+        for x in f.walk():
+            if x.k != 'BinaryOperator' or x.op not in ('<', '<=', '>', '>='):
+                continue
+            l, r = _strip_casts(x.child('lhs')), _strip_casts(x.child('rhs'))
+            if lvalue_key(r) == endkey:
+                other, op = l, x.op
+            elif lvalue_key(l) == endkey:
+                other, op = r, {'<': '>', '<=': '>=', '>': '<', '>=': '<='}[x.op]
+            else:
+                continue
+            # op is now the relation `other OP end`
+            y, prev = x.parent, x
+            while y is not None and y.k in ('ImplicitCastExpr', 'ParenExpr'):
+                prev, y = y, y.parent
+            neg = False
+            if y is not None and y.k == 'UnaryOperator' and y.op == '!':
+                neg = True
+                prev, y = y, y.parent
+            rel = {'<': '>=', '<=': '>', '>': '<=', '>=': '<'}[op] if neg else op
+            loop = y is not None and y.k in ('WhileStmt', 'ForStmt', 'DoStmt') and y.child('cond') is prev
+            out.append((x, other, rel, loop))
+        return out
+
     for f in db.fn('gdstk::leaf_search', all=True)[:1]:
         ctx.touch(f)
-        jr = next((v for v in f.walk() if v.k == 'VarDecl' and v.n == 'jr'), None)
-        jls = [v for v in f.walk() if v.k == 'VarDecl' and v.n == 'jl']
-        loop = next((l for l in f.walk() if l.k == 'WhileStmt'), None)
-        post = next((i for i in f.body.c if i is not None and i.k == 'IfStmt'), None)
-        if jr is None or len(jls) != 2 or loop is None or post is None:
-            raise AnalysisBroken('leaf_search: shape not recognised')
-        ok = all(ieval(jr.child('init'), {'j': k}) == 2 * k + 2 for k in range(12)) and all(ieval(v.child('init'), {'j': k}) == 2 * k + 1 for v in jls for k in range(12))
-        ctx.check(ok, 'R-TABLE', 'leaf_search/child-indices', f.loc(), 'left child 2j+1, right child 2j+2 (evaluated for j = 0..11)')
-        c1, c2 = norm(loop.child('cond').text()), norm(post.child('cond').text())
+        if len(f.params) < 3:
+            raise AnalysisBroken('leaf_search: expected (items, j, end, sorted)')
+        endkey = 'v%d:%s' % (f.params[2]['d'], f.params[2]['n'])
+        tests = bound_tests(f, endkey)
+        if len(tests) < 2:
+            raise AnalysisBroken('leaf_search: fewer than two comparisons with the inclusive bound `%s`' % f.params[2]['n'])
+        desc = [t for t in tests if t[3]]
+        lone = [t for t in tests if not t[3]]
+        if not desc or not lone:
+            raise AnalysisBroken('leaf_search: descent loop test / lone-left-child test not both found')
+        tabs = {}
+        for x, other, rel, loop in tests:
+            tb = table(f, other)
+            tabs[x.id] = None if tb is None else {t for _, t in tb}
+        okf = all(tabs[t[0].id] == {RIGHT} for t in desc) and all(tabs[t[0].id] == {LEFT} for t in lone)
+        ctx.check(okf, 'R-TABLE', 'leaf_search/child-indices', f.loc(), 'the descent test looks at the right child 2j+2 and the final test at the left child 2j+1 (every definition of the tested index evaluated for j = 0..11)',
+                  'tested child indices: descent %s, final %s (expected 2j+2 and 2j+1)' % ([sorted(tabs[t[0].id] or [])[:1] for t in desc], [sorted(tabs[t[0].id] or [])[:1] for t in lone]))
         n += 2
-        ctx.check(c1 == '(jr <= end)', 'R-BOUND.inclusive', 'leaf_search/descend-while-right-child-exists', loop.loc(), 'the descent continues while the right child index is <= end (end is the last valid index): both children are compared',
-                  'descent condition is `%s`: with an inclusive `end` the right child at index end is never considered and the larger child can be missed' % c1)
-        ctx.check(c2 == '(jl <= end)', 'R-BOUND.inclusive', 'leaf_search/lone-left-child', post.loc(), 'a lone left child at index <= end is taken', 'lone-left-child test is `%s`' % c2)
-        acc = sorted({norm(x.child('rhs').text() if x.child('rhs') is not None else '') for x in loop.walk() if x.k == 'ArraySubscriptExpr'} | {norm(x.text()) for x in loop.walk() if x.k == 'ArraySubscriptExpr'})
-        ctx.check(any('items[jl]' in a for a in acc) and any('items[jr]' in a for a in acc), 'R-SHAPE', 'leaf_search/compares-both-children', loop.loc(), 'the two children are compared with each other')
+        bad = [t for t in desc if t[2] != '<=']
+        ctx.check(not bad, 'R-BOUND.inclusive', 'leaf_search/descend-while-right-child-exists', desc[0][0].loc(), 'the descent continues while the right child index is <= end (end is the last valid index): both children are compared',
+                  'descent condition is `%s`: with an inclusive `end` the right child at index end is never considered and the larger child can be missed' % norm(bad[0][0].text()) if bad else '')
+        bad = [t for t in lone if t[2] != '<=']
+        ctx.check(not bad, 'R-BOUND.inclusive', 'leaf_search/lone-left-child', lone[0][0].loc(), 'a lone left child at index <= end is taken', 'lone-left-child test is `%s`' % norm(bad[0][0].text()) if bad else '')
+        # the comparator is applied to the two children of the same node
+        cmpc = [c for c in f.walk() if c.k == 'CallExpr' and len(c.args) == 2 and all(_strip_casts(a).k == 'ArraySubscriptExpr' for a in c.args)]
+        okc = False
+        for c in cmpc:
+            ts = []
+            for a in c.args:
+                a = _strip_casts(a)
+                tb = table(f, a.child('idx') or a.c[1])
+                ts.append(None if tb is None else {t for _, t in tb})
+            if ts == [{LEFT}, {RIGHT}] or ts == [{RIGHT}, {LEFT}]:
+                okc = True
+        ctx.check(okc, 'R-SHAPE', 'leaf_search/compares-both-children', f.loc(), 'the two children (2j+1, 2j+2) are compared with each other')
+    PARENT = tuple((k - 1) >> 1 for k in range(1, 14))
     for f in db.fn('gdstk::sift_down', all=True)[:1]:
         ctx.touch(f)
-        par = [v for v in f.walk() if (v.k == 'VarDecl' and v.n == 'parent')]
-        asg = [x for x in f.walk() if is_assign(x) and norm(x.child('lhs').text()) == 'j' and '>>' in norm(x.child('rhs').text())]
-        ok = len(par) == 1 and len(asg) == 1 and all(ieval(par[0].child('init'), {'j': k}) == (k - 1) // 2 for k in range(1, 14)) and all(ieval(asg[0].child('rhs'), {'j': k}) == (k - 1) // 2 for k in range(1, 14))
-        ctx.check(ok, 'R-TABLE', 'sift_down/parent-index', f.loc(), 'parent (j-1)>>1 (evaluated for j = 1..13), inverse of both child formulas')
+        shifts = [x for x in f.walk() if x.k == 'BinaryOperator' and x.op in ('>>', '/')]
+        good = 0
+        for x in shifts:
+            names = sorted({y.n for y in x.walk() if y.k == 'DeclRefExpr' and y.dk in ('local', 'param')})
+            try:
+                if len(names) == 1 and tuple(ieval(x, {names[0]: k}) for k in range(1, 14)) == PARENT:
+                    good += 1
+            except (AnalysisBroken, OverflowError):
+                pass
+        ctx.check(len(shifts) >= 2 and good == len(shifts), 'R-TABLE', 'sift_down/parent-index', f.loc(), 'parent (j-1)>>1 at all %d sites (evaluated for j = 1..13), inverse of both child formulas' % len(shifts),
+                  '%d of %d parent-index computations differ from (j-1)>>1' % (len(shifts) - good, len(shifts)))
         ls = [c for c in f.walk() if c.k == 'CallExpr' and (c.callee or '').endswith('leaf_search')]
-        ok = len(ls) == 1 and [norm(a.text()) for a in ls[0].args[:3]] == ['items', 'start', 'end']
+        ok = len(ls) == 1 and len(ls[0].args) >= 3 and [lvalue_key(_strip_casts(a)) for a in ls[0].args[:3]] == ['v%d:%s' % (p_['d'], p_['n']) for p_ in f.params[:3]]
         ctx.check(ok, 'R-SHAPE', 'sift_down/forwards-range', f.loc(), 'the leaf search runs over the same inclusive range [start, end]')
     for f in db.fn('gdstk::heap_sort', all=True)[:1]:
+        from .. import loops as LP
+        from ..linear import lin_add
         ctx.touch(f)
         calls = [c for c in f.walk() if c.k == 'CallExpr' and (c.callee or '').endswith('sift_down')]
         if len(calls) != 2:
             raise AnalysisBroken('heap_sort: expected two sift_down call sites')
         n += 2
-        ctx.check(norm(calls[0].args[2].text()) == '(count - 1)', 'R-BOUND.inclusive', 'heap_sort/build-range', calls[0].loc(), 'heap construction sifts within [start, count-1]: `end` is the last valid index', 'build phase passes end = %s' % norm(calls[0].args[2].text()))
-        sw = next((c for c in f.walk() if c.k == 'CallExpr' and (c.callee or '').endswith('swap_values')), None)
-        loop = next((a for a in calls[1].ancestors() if a.k in ('WhileStmt', 'ForStmt')), None)
-        bad = None
-        if sw is None or loop is None or not any(a is loop for a in sw.ancestors()):
-            raise AnalysisBroken('heap_sort: extraction loop not recognised')
-        idx = [x for x in sw.walk() if x.k == 'ArraySubscriptExpr']
-        ivar = None
-        for x in idx:
-            t = norm(x.text())
-            m = re.fullmatch(r'items\[(\w+)\]', t)
-            if m and m.group(1) != '0':
-                ivar = m.group(1)
-        if ivar is None or '[0]' not in ' '.join(norm(x.text()) for x in idx):
-            raise AnalysisBroken('heap_sort: swap is not items[0] <-> items[<var>]')
-        body = [s_ for s_ in loop.child('body').c if s_ is not None]
-        i0, i1 = body.index(sw), body.index(calls[1])
-        net = 0
-        for s_ in body[i0 + 1:i1]:
-            for x in s_.walk():
-                if x.k == 'UnaryOperator' and x.op in ('--', 'post--') and norm(x.child('sub').text()) == ivar:
-                    net -= 1
-                if x.k == 'UnaryOperator' and x.op in ('++', 'post++') and norm(x.child('sub').text()) == ivar:
-                    net += 1
-                if x.k == 'CompoundAssignOperator' and norm(x.child('lhs').text()) == ivar:
-                    net += {'-=': -1, '+=': 1}.get(x.op, 0) * (x.child('rhs').cv or 0)
-        a2 = norm(calls[1].args[2].text())
-        m = re.fullmatch(r'\(%s - (\d+)\)' % ivar, a2)
-        off = net + (-int(m.group(1)) if m else (0 if a2 == ivar else None) if True else 0) if (m or a2 == ivar) else None
-        ctx.check(off == -1 and i0 < i1, 'R-BOUND.inclusive', 'heap_sort/extracted-maximum-leaves-the-heap', calls[1].loc(), 'after items[0] <-> items[%s] the heap is re-established over [0, %s-1]: the slot that received the maximum is excluded' % (ivar, ivar),
-                  'after the maximum is swapped into items[%s] the sift range ends at %s%+d: the just-placed maximum is pulled back into the heap' % (ivar, ivar, off if off is not None else 0))
-        iv = next((v for v in f.walk() if v.k == 'VarDecl' and v.n == ivar), None)
-        ctx.check(iv is not None and norm(iv.child('init').text()) == '(count - 1)' and norm(loop.child('cond').text()) == '(%s > 0)' % ivar, 'R-LOOP', 'heap_sort/extraction-range', loop.loc(), 'extraction runs from the last index down to 1')
+        ck = 'v%d:%s' % (f.params[1]['d'], f.params[1]['n'])
+        want_last = {ck: 1, 1: -1}
+        L0 = LP.enclosing_loop(calls[0])
+        L1 = LP.enclosing_loop(calls[1])
+        if L0 is None or L1 is None:
+            raise AnalysisBroken('heap_sort: build / extraction loop not recognised')
+        lp0, lp1 = LP.Loop(f, L0), LP.Loop(f, L1)
+        a2 = lp0.lin(calls[0].args[2], calls[0])
+        if a2 is None:
+            raise AnalysisBroken('heap_sort: build-phase bound `%s` not affine' % norm(calls[0].args[2].text()))
+        ctx.check(not lin_add(a2, want_last, -1), 'R-BOUND.inclusive', 'heap_sort/build-range', calls[0].loc(), 'heap construction sifts within [start, count-1]: `end` is the last valid index', 'build phase passes end = %s' % norm(calls[0].args[2].text()))
+        sw = next((c for c in L1.walk() if c.k == 'CallExpr' and (c.callee or '').endswith('swap_values')), None)
+        if sw is None:
+            raise AnalysisBroken('heap_sort: extraction loop has no swap')
+        idx = [lp1.lin((x.child('idx') or x.c[1]), x) for x in sw.walk() if x.k == 'ArraySubscriptExpr']
+        if len(idx) != 2 or None in idx or not any(not i_ for i_ in idx):
+            raise AnalysisBroken('heap_sort: swap is not items[0] <-> items[<index>]')
+        top = next(i_ for i_ in idx if i_)
+        rng = lp1.lin(calls[1].args[2], calls[1])
+        trip = lp1.trip()
+        if rng is None or trip is None:
+            raise AnalysisBroken('heap_sort: extraction loop not summarised')
+        d = lin_add(rng, top, -1)
+        ctx.check(d == {1: -1} and sw.id < calls[1].id, 'R-BOUND.inclusive', 'heap_sort/extracted-maximum-leaves-the-heap', calls[1].loc(), 'after items[0] <-> items[m] the heap is re-established over [0, m-1]: the slot that received the maximum is excluded',
+                  'after the maximum is swapped into items[m] the sift range ends at m%+d: the just-placed maximum is pulled back into the heap' % d.get(1, 0) if set(d) <= {1} else 'sift range %s vs swapped index %s' % (rng, top))
+        ok = top.get(LP.K) == -1 and not lin_add({k_: v for k_, v in top.items() if k_ != LP.K}, want_last, -1) and not lin_add(trip, want_last, -1)
+        ctx.check(ok, 'R-LOOP', 'heap_sort/extraction-range', L1.loc(), 'extraction runs from the last index down to 1', 'iteration k swaps index %s, %s iterations' % (top, trip))
     ctx.require('R-BOUND.inclusive comparisons', n, 4)
     # saved elements are copies: a reference to items[k] would change under the shifts/swaps that follow
     na = 0
